@@ -52,9 +52,9 @@ CHECKS = {
  'C17': dict(
    engine='pmlarms',
    category='proof',
-   text='Each operator arm of PromelaDataModel::evaluateExpr is extracted mechanically to C on every run and verified loop-free over the full 2^32 x 2^32 operand domain, once per arity the grammar produces: value equals C int arithmetic as the Promela manual defines it, an execution error is raised exactly for faulting operations (/ and % by zero, INT_MIN/-1), no arm takes an operand the parser did not supply, every operator of the property has an arm. Loop-free + full domain = complete proof of these per-arm contracts. Also under contract: the integer guards on an array index in getVariable/setVariable (an execution error exactly for index < 0 or index >= size, all ints) and Data::operator[](size_t) with the std::list abstracted to its length (the dereferenced iterator is element number index, never end(), for every list length and index; two loop contracts, no unwinding). Precedence/associativity (bison), operand order, the rest of variable storage and read-back are outside the reach of contracts on C text and are NOT claimed.',
+   text='Each operator arm of PromelaDataModel::evaluateExpr is extracted mechanically to C on every run and verified loop-free over the full 2^32 x 2^32 operand domain, once per arity the grammar produces: value equals C int arithmetic as the Promela manual defines it, an execution error is raised exactly for faulting operations (/ and % by zero, INT_MIN/-1), no arm takes an operand the parser did not supply, every operator of the property has an arm. Loop-free + full domain = complete proof of these per-arm contracts. Also under contract: the integer guards on an array index in getVariable/setVariable (an execution error exactly for index < 0 or index >= size, all ints) and Data::operator[](size_t) with the std::list abstracted to its length (the dereferenced iterator is element number index, never end(), for every list length and index; two loop contracts, no unwinding); three more slices of variable storage: the array declaration branch of evaluateDecl (exactly `size` elements, all 0, for every int size; loop contract enforced with --dfcc), the length guard of setVariable for a whole array assigned to a declared array (an execution error exactly for len > size), and the decision in PromelaDataModel::init whether a declared variable is assigned (a <data> without value keeps the 0 of its declaration). Precedence/associativity (bison), operand order, the rest of variable storage and read-back are outside the reach of contracts on C text and are NOT claimed.',
    note='Trusted: extraction rules (pml_extract.py), spec pml_spec.h, Data(int)/dataToInt round trip, CBMC + z3 4.8.12 for the * / % arms. Assumed: integer-valued operands; left operand = textually first *opIter++ (unsequenced in C++); two\'s-complement wrap of + - *.',
-   technique='CBMC (SAT, z3 for mult/div congruence) on mechanically extracted loop-free arms, full operand domain; native replay through the real interpreter',
+   technique='CBMC (SAT, z3 for mult/div congruence) on mechanically extracted loop-free arms and slices, full operand domain; goto-instrument --dfcc with loop contracts for the two list loops (Data::operator[], evaluateDecl); native replay through the real interpreter',
    design='3/C17'),
  'C15': dict(
    engine='jsmn+jsonstr',
